@@ -13,6 +13,88 @@ use std::collections::{HashMap, HashSet};
 pub struct Case {
     pub cfg: TableConfig,
     pub ops: Vec<TOp>,
+    /// companion: the table a `Discv5` node builds from its configuration; the table history is not run
+    #[serde(default)]
+    pub svc: Option<SvcLimit>,
+}
+
+/// A real `Discv5` (service with scripted handler) configured with an incoming limit: peers report
+/// sessions in both directions, some are disconnected again.
+#[derive(Clone, Debug, PartialEq, Eq, Hash, Serialize, Deserialize)]
+pub struct SvcLimit {
+    pub limit: u8,
+    /// (peer, 0 = incoming session / 1 = outgoing session / 2 = disconnect / 3 = explicit add_enr)
+    pub steps: Vec<(u8, u8)>,
+}
+
+async fn run_svc_limit(c: &SvcLimit, rep: &mut CaseReport) -> Option<(String, String)> {
+    use crate::engines::svc::{reset_globals, shaped_record, svc_addr4, Shape, Svc, SvcConfig};
+    use discv5::{
+        verif::{ConnectionDirection as Dir, HandlerOut},
+        ConnectionState,
+    };
+    reset_globals();
+    let limit = c.limit.min(16) as usize;
+    let mut s = Svc::new(SvcConfig { key_idx: 0, incoming_bucket_limit: Some(limit), ..Default::default() }).await;
+    let local = s.d.local_enr().node_id().raw();
+    rep.class("service-companion");
+    rep.class(format!("service-companion/incoming-limit-{limit}"));
+    let mut most_incoming = 0usize;
+    let mut refused_incoming = false;
+    for (p, what) in c.steps.iter().take(120) {
+        let key = 1400 + (*p as u32 % 90);
+        let id = ids::node_id(&crate::keys::id_of(key));
+        match what % 4 {
+            0 => s.inject(HandlerOut::Established(shaped_record(key, 1, Shape::V4), svc_addr4(key), Dir::Incoming)).await,
+            1 => s.inject(HandlerOut::Established(shaped_record(key, 1, Shape::V4), svc_addr4(key), Dir::Outgoing)).await,
+            2 => {
+                s.d.disconnect_node(&id);
+            }
+            _ => {
+                let _ = s.d.add_enr(shaped_record(key, 1, Shape::V4));
+            }
+        }
+        s.take_outbox();
+        s.take_events();
+        if let Some(p) = crate::runner::take_panic() {
+            return Some((format!("panic-in-task/{}", p.split(':').take(2).collect::<Vec<_>>().join(":")), p));
+        }
+        let mut per: HashMap<usize, (usize, usize)> = HashMap::new();
+        for (nid, _, st) in s.d.table_entries() {
+            let Some(b) = bucket_of(&local, &nid.raw()) else {
+                return Some(("S2/local-id-stored".into(), "the node's own id is a routing-table entry".into()));
+            };
+            let e = per.entry(b).or_insert((0, 0));
+            e.0 += 1;
+            if st.state == ConnectionState::Connected && st.direction == Dir::Incoming {
+                e.1 += 1;
+            }
+        }
+        for (b, (n, inc)) in &per {
+            if *n > K {
+                return Some(("S1/bucket-overfull".into(), format!("bucket {b} of the node's table holds {n} nodes")));
+            }
+            most_incoming = most_incoming.max(*inc);
+            if *inc > limit {
+                return Some((
+                    "S5/too-many-incoming".into(),
+                    format!("a node configured with incoming_bucket_limit {limit} holds {inc} connected incoming nodes in bucket {b} (after step ({p}, {what}))"),
+                ));
+            }
+        }
+        if what % 4 == 0 && !s.d.table_entries().iter().any(|(n, _, st)| *n == id && st.direction == Dir::Incoming && st.state == ConnectionState::Connected) {
+            refused_incoming = true;
+        }
+    }
+    s.d.shutdown();
+    rep.nontrivial = refused_incoming || most_incoming >= 1;
+    if refused_incoming {
+        rep.class("service-companion/an-incoming-session-was-not-stored-as-connected");
+    }
+    if most_incoming == limit && limit > 0 {
+        rep.class("service-companion/limit-reached");
+    }
+    None
 }
 
 pub struct C07;
@@ -372,7 +454,7 @@ impl Property for C07 {
     }
     fn strategy(tier: Tier) -> BoxedStrategy<Case> {
         let max_ops = tier.pick(120usize, 200usize);
-        (config_strategy(), focus_strategy())
+        let table_cases = (config_strategy(), focus_strategy())
             .prop_flat_map(move |(cfg, focus)| {
                 let frag = prop_oneof![
                     12 => op_strategy(focus.clone()).prop_map(|o| vec![o]),
@@ -380,14 +462,25 @@ impl Property for C07 {
                 ];
                 (Just(cfg), proptest::collection::vec(frag, 1..max_ops).prop_map(|v| v.into_iter().flatten().collect::<Vec<_>>()))
             })
-            .prop_map(|(cfg, ops)| Case { cfg, ops })
-            .boxed()
+            .prop_map(|(cfg, ops)| Case { cfg, ops, svc: None });
+        let table = table_cases;
+        let step = (prop_oneof![3 => 0u8..90, 1 => 0u8..12], prop_oneof![6 => Just(0u8), 2 => Just(1u8), 1 => Just(2u8), 1 => Just(3u8)]);
+        let svc = (config_strategy(), prop_oneof![2 => Just(0u8), 2 => 1u8..4, 1 => 4u8..=16], proptest::collection::vec(step, 20..120))
+            .prop_map(|(cfg, limit, steps)| Case { cfg, ops: vec![], svc: Some(SvcLimit { limit, steps }) });
+        prop_oneof![150 => table, 1 => svc].boxed()
     }
     fn run(case: &Case) -> CaseReport {
+        if let Some(sv) = &case.svc {
+            let mut rep = CaseReport::default();
+            if let Some((sig, d)) = crate::engines::svc::run_blocking(run_svc_limit(sv, &mut rep)) {
+                rep.fail(sig, d);
+            }
+            return rep;
+        }
         run_history(&case.cfg, &case.ops)
     }
     fn rule() -> String {
-        "histories of routing-table operations (insert_or_update, update_node, update_node_status, remove, Entry API, iter, closest_keys, nodes_by_distances, take_applied_pending, forced pending expiry; bulk fills expanded) over keys L^d with the highest bit of d chosen per bucket class (0..5, middle, 253..255) and <=20 low-bit patterns per bucket; max_incoming 0..16; pending timeout 0 or 1h. After EVERY elementary op the table is observed through buckets_iter/iter/pending only and S1-S6, P1-P3 are evaluated. Non-trivial = some bucket reached 16 nodes and a later op addressed that bucket. Distinct = distinct (config, op list).".into()
+        "histories of routing-table operations (insert_or_update, update_node, update_node_status, remove, Entry API, iter, closest_keys, nodes_by_distances, take_applied_pending, forced pending expiry; bulk fills expanded) over keys L^d with the highest bit of d chosen per bucket class (0..5, middle, 253..255) and <=20 low-bit patterns per bucket; max_incoming 0..16; pending timeout 0 or 1h. After EVERY elementary op the table is observed through buckets_iter/iter/pending only and S1-S6, P1-P3 are evaluated. One case in 151 is a companion on the service engine: a real Discv5 built from a configuration with incoming_bucket_limit 0..16 (half of them 0..3) takes 20..120 session reports (incoming / outgoing), disconnects and explicit adds for 90 peers; after every step no bucket of Discv5::table_entries() may hold more than 16 nodes or more connected incoming nodes than the CONFIGURED limit. Non-trivial = some bucket reached 16 nodes and a later op addressed that bucket (companion: an incoming session was stored or refused). Distinct = distinct (config, op list).".into()
     }
     fn assumptions() -> Vec<String> {
         vec![
